@@ -560,9 +560,9 @@ fn main() {
         let engine = Engine::parse(args.get(3).expect("engine")).expect("engine name");
         let data = std::fs::read(args.get(4).expect("artifact")).expect("read artifact");
         let mut case = Case::from_bytes(engine, prop, &data);
-        case.kind %= 3;
+        case.kind %= mmv::case::NKINDS;
         case.ops.truncate(96);
-        case.univ = (case.univ % 21).max(1);
+        case.univ = (case.univ % 97).max(1);
         std::fs::write(args.get(5).expect("out"), to_text_named(&case, &["decoded from a libFuzzer artifact".into()])).expect("write");
         std::process::exit(0);
     }
